@@ -7,6 +7,16 @@ fn main() {
         std::process::exit(2);
     }
     let prop = argv[1].clone();
+    if prop == "CHILD" {
+        let code = match std::env::var("NQV_CHILD").as_deref() {
+            Ok("loader-text") => nqverif::c08::child_loader_text(),
+            other => {
+                eprintln!("MACHINERY unknown child mode {other:?}");
+                2
+            }
+        };
+        std::process::exit(code);
+    }
     let mut tier = std::env::var("VERIF_TIER").unwrap_or_else(|_| "quick".into());
     let mut replay = None;
     let mut threads = std::thread::available_parallelism().map(|n| n.get()).unwrap_or(8);
@@ -48,6 +58,7 @@ fn main() {
             "C20" => nqverif::c20::replay(case),
             "C06" => nqverif::c06::replay(case),
             "C07" => nqverif::c07::replay(case),
+            "C08" => nqverif::c08::replay(case),
             _ => {
                 println!("{}", serde_json::to_string_pretty(case).unwrap());
                 0
@@ -59,6 +70,7 @@ fn main() {
         "C20" => nqverif::c20::run(&args),
         "C06" => nqverif::c06::run(&args),
         "C07" => nqverif::c07::run(&args),
+        "C08" => nqverif::c08::run(&args),
         _ => {
             eprintln!("MACHINERY unknown property {prop}");
             2
